@@ -28,9 +28,10 @@ Progs == ndJsonDeserialize("progs.ndjson")
 NP    == Len(Progs)
 
 VARIABLES p, gs, cur, heap, dec, sched, valid, ev, crashed,
-          hist     \* probes seen so far on this execution: <<probe site, object, path>> (C11)
+          hist,    \* probes seen so far on this execution: <<probe site, object, path>> (C11)
+          sh       \* shared-memory accesses of the last step (C14): events "shared"(line, object, goroutine)
 
-vars == <<p, gs, cur, heap, dec, sched, valid, ev, crashed, hist>>
+vars == <<p, gs, cur, heap, dec, sched, valid, ev, crashed, hist, sh>>
 
 -----------------------------------------------------------------------------
 (* values *)
@@ -423,8 +424,40 @@ Exec(g) ==
          \/ StepGo(g, fr, i) \/ StepMkChan(g, fr, i) \/ StepSend(g, fr, i) \/ StepRecv(g, fr, i)
          \/ StepGate(g, fr, i)
 
+\* ---- C14: which objects does the next instruction of g access, and are they reachable from another goroutine?
+RootVals(g2) ==
+    UNION {LET fr == gs[g2].fr[j] IN
+           {fr.env[x] : x \in DOMAIN fr.env}
+           \cup UNION {{fr.defers[d].clo} \cup {fr.defers[d].args[a] : a \in 1 .. Len(fr.defers[d].args)} : d \in 1 .. Len(fr.defers)}
+           \cup {fr.rv[a] : a \in 1 .. Len(fr.rv)}
+           : j \in 1 .. Len(gs[g2].fr)}
+
+GlobalRefs == {Ref(j, <<>>) : j \in 1 .. Len(Prog.globals)}
+
+ReachFromOthers(g) ==
+    LET others == {g2 \in 1 .. Len(gs) : g2 # g /\ gs[g2].st = "run"} IN
+    IF others = {} THEN {}
+    ELSE ROSet(heap, GlobalRefs \cup UNION {RootVals(g2) : g2 \in others}, {})
+
+AccessedRefs(fr, i) ==
+    LET R(k) == Val(fr, i.a[k]) IN
+    CASE i.op \in {"load", "store", "tostr", "mapput", "mapget", "send", "recv"} -> {R(1)}
+      [] i.op \in {"copysl", "appendspread"} -> {R(1), R(2)}
+      [] i.op = "append" -> {R(1)}
+      [] i.op = "rangeacc" -> {R(2)}
+      [] OTHER -> {}
+
+SharedAfter(g) ==
+    IF Len(gs) < 2 \/ Top(g).mode # "run" THEN {}
+    ELSE LET i == Ins(g)
+             objs == {r.o : r \in {r \in AccessedRefs(Top(g), i) : r.k = "ref"}} IN
+         IF objs = {} THEN {}
+         ELSE LET shared == objs \cap ReachFromOthers(g) IN
+              {Event("shared", i.ln, o, g, "", FALSE) : o \in shared}
+
 \* instructions at which a goroutine switch is observable (partial-order reduction: all others are local)
 Visible(g) ==
+    IF ~Running(g) THEN TRUE ELSE
     \/ Top(g).mode # "run"
     \/ Ins(g).op \in {"load", "store", "send", "recv", "gate", "sink", "src", "mapput", "mapget", "copysl",
                       "rangeacc", "tostr", "append", "appendspread", "go", "gov", "probe", "bt"}
@@ -439,7 +472,7 @@ Runnable(g) == Running(g) /\ ~Blocked(g)
 
 Init ==
     /\ p \in 1 .. NP
-    /\ cur = 1 /\ dec = <<>> /\ sched = <<>> /\ valid = {} /\ ev = {} /\ crashed = FALSE /\ hist = {}
+    /\ cur = 1 /\ dec = <<>> /\ sched = <<>> /\ valid = {} /\ ev = {} /\ crashed = FALSE /\ hist = {} /\ sh = {}
     /\ heap = [j \in 1 .. Len(Progs[p].globals) |-> [site |-> 0, v |-> Nil]]   \* re-initialised by InitGlobals
     /\ gs = <<[st |-> "init", entry |-> "main", site |-> 0, fr |-> <<>>]>>
 
@@ -450,7 +483,7 @@ Start ==
     /\ gs' = <<[st |-> "run", entry |-> "main", site |-> 0,
                 fr |-> <<NewFrame("main", <<>>, <<>>, <<>>, 0, FALSE)>>]>>
     /\ ev' = {Event("call", 0, 0, 0, "main", FALSE)}
-    /\ UNCHANGED <<p, cur, dec, sched, valid, crashed, hist>>
+    /\ UNCHANGED <<p, cur, dec, sched, valid, crashed, hist, sh>>
 
 \* main returning ends the program (other goroutines are abandoned, as in Go); a crash ends it too
 Live == ~crashed /\ gs[1].st \in {"run"}
@@ -463,12 +496,13 @@ Next ==
             /\ g = cur \/ ~Runnable(cur) \/ Visible(cur)
             /\ Exec(g)
             /\ hist' = HistAfter(g)
+            /\ sh' = SharedAfter(g)
             /\ cur' = g
             /\ sched' = IF g = cur THEN sched ELSE Append(sched, g)
 
 Spec == Init /\ [][Next]_vars
 
 \* decision history and schedule history are not part of the identity of a state
-View == <<p, gs, cur, heap, valid, ev, crashed, Len(dec), hist>>
+View == <<p, gs, cur, heap, valid, ev, crashed, Len(dec), hist, sh>>
 
 =============================================================================
